@@ -141,6 +141,9 @@ def seqLine (sec : Nat) (acc : Report × SeqSt) (l : Line) : Report × SeqSt := 
     let m := measure i c (kvStr l.obs "sz" "-")
     if c > 0 ∧ m ≥ i.max then
       r := r.violation sec l.idx s!"the size threshold is reached ({if i.chunk then "chunk" else "bulk"} container holds {m} >= max {i.max}, {c} tasks) but the batch was not taken out for execution"
+    -- the wrappers' Add accept every task (they return nil): an error tells the caller the task was NOT accepted
+    if kvNat l.obs "e" 0 > 0 then
+      r := r.violation sec l.idx s!"{if i.chunk then "ChunkExecutor" else "BulkExecutor"}.Add returned an error for {kvNat l.obs "e" 0} task(s): Add accepts every task (the property's 'accepted by Add'), an error return makes the caller treat an executed task as rejected (or a rejected one is never executed)"
     if l.op.headD "" = "flush" ∧ c > 0 then
       r := r.violation sec l.idx s!"{c} tasks are still in the container after Flush has returned"
     -- (b) the model
